@@ -115,26 +115,35 @@ def strip_comments(txt):
     return "".join(out)
 
 
-def check_properties_file(prop):
-    """compile Properties/<prop>.v (after its dependencies) and collect theorems and their assumptions.
-    returns dict(ok, theorems=[names], assumptions={name: text}, output, cmd)"""
-    vfile = "Properties/%s.v" % prop
-    res = {"ok": False, "theorems": [], "assumptions": {}, "output": "", "cmd": "cd coq && make -f Makefile.coq -j16 Properties/%s.vo && coqc -Q . Vivid %s" % (prop, vfile)}
+def check_properties_file(prop, files=None):
+    """compile the property's theorem file(s) (after their dependencies) and collect theorems and assumptions.
+    files: list of paths relative to coq/ (default Properties/<prop>.v); results are merged."""
+    files = files or ["Properties/%s.v" % prop]
+    res = {"ok": True, "theorems": [], "assumptions": {}, "output": "", "examples": [],
+           "cmd": "cd coq && make -f Makefile.coq -j16 %s && for f in %s; do coqc -Q . Vivid $f; done" % (
+               " ".join(f[:-2] + ".vo" for f in files), " ".join(files))}
+    for vfile in files:
+        r = _check_one_properties_file(vfile)
+        res["theorems"] += r["theorems"]
+        res["examples"] += r.get("examples", [])
+        res["assumptions"].update(r["assumptions"])
+        if not r["ok"]:
+            res["ok"] = False
+            res["failed_stage"] = "%s: %s" % (vfile, r.get("failed_stage"))
+            res["output"] += r.get("output", "")
+    return res
+
+
+def _check_one_properties_file(vfile):
+    res = {"ok": False, "theorems": [], "assumptions": {}, "output": ""}
     src = open(os.path.join(COQ, vfile)).read()
     code = strip_comments(src)
     thms = re.findall(r"^\s*(?:Theorem|Lemma|Corollary)\s+([A-Za-z0-9_']+)", code, re.M)
     res["theorems"] = thms
-    # the file may contain statements, [exact]-proofs and Print Assumptions only
-    bad = []
-    for m in re.finditer(r"Proof\.(.*?)(Qed|Defined)\.", code, re.S):
-        body = m.group(1).strip()
-        if not re.fullmatch(r"exact\s*\(?.*\)?\s*\.", body, re.S):
-            bad.append(body[:80])
-    examples = re.findall(r"^\s*Example\s+([A-Za-z0-9_']+)", code, re.M)
-    res["examples"] = examples
+    res["examples"] = re.findall(r"^\s*Example\s+([A-Za-z0-9_']+)", code, re.M)
     printed = re.findall(r"Print Assumptions\s+([A-Za-z0-9_']+)\s*\.", code)
     missing = [t for t in thms if t not in printed]
-    rc, out = coq_make(["Properties/%s.vo" % prop])
+    rc, out = coq_make([vfile[:-2] + ".vo"])
     if rc != 0:
         res["output"] = out[-4000:]
         res["failed_stage"] = "make"
@@ -144,7 +153,6 @@ def check_properties_file(prop):
     if rc != 0:
         res["failed_stage"] = "coqc"
         return res
-    # split the Print Assumptions output into blocks, in order of the Print commands
     blocks = re.split(r"(?m)^(?=Closed under the global context|Axioms:)", out)
     blocks = [b.strip() for b in blocks if b.strip().startswith(("Closed under", "Axioms:"))]
     for name, blk in zip(printed, blocks):
@@ -155,7 +163,7 @@ def check_properties_file(prop):
     if missing:
         res["failed_stage"] = "theorems without Print Assumptions: " + ",".join(missing)
         return res
-    # example proofs in the Properties file are allowed to use tactics; theorems are not
+    # theorems of a Properties file are statements closed by a single [exact]; Examples may use tactics
     thm_bad = []
     for m in re.finditer(r"(?:Theorem|Lemma|Corollary)\s+([A-Za-z0-9_']+).*?Proof\.(.*?)(Qed|Defined)\.", code, re.S):
         body = m.group(2).strip()
